@@ -21,6 +21,12 @@ CHECKS = {
     "C04": ("exploration", "bounded exhaustive program enumeration (all expression trees up to a size bound over the supported kinds and a leaf alphabet) with differential evaluation of original vs rewritten DAG on a complete assignment grid, float and exact rational",
             "Every well-typed tree of the listed sizes (all kinds to size 2, boolean/select algebra to size 3, sign-inference comparison pairs, constant-only trees, casts/atan2/copysign/hypot nestings) is built in a fresh Context, rewritten, and both DAGs are evaluated by an independent interpreter on the full 18x18 grid of special and generic values (compared where the original raises no NaN/overflow/underflow/divide-by-zero event) and exactly on a 9x9 rational grid; raises and non-termination are violations; shipped algorithms before/after fa.rewrite on lattices. Mismatches are reduced to their minimal failing sub-tree.",
             "Trusts mc.interp = NumPy semantics. Programs beyond the size bounds are not covered.", "DESIGN.md §2 C04"),
+    "C05": ("exploration", "bounded program enumeration (shipped requests + complete kind-pair / constant / sharing lattice) with differential execution of the emitted Python, NumPy and C++ code against an independent evaluation of the graph, plus parse-back single-assignment check",
+            "Every shipped python/numpy/cpp request and every lattice program (each declared kind on symbols, outer x inner x operand position incl. select/comparison nodes, 14 constant classes in four positions, diamonds), with and without fa.rewrite, float32/float64, debug 0/1: the emitted source must load (compile/exec; g++ per batch, culprits isolated), be single-assignment (ast / C parser), and return bit-identical values on a 16x16 special+generic input grid (Python: eager math interpreter; NumPy: mc.interp; C++: mc.interp in the same type for graphs made of correctly rounded primitives).",
+            "C++ execution is compared only for graphs built from +,-,*,/,sqrt,abs,min,max,comparisons,select (libm transcendental functions differ between glibc and NumPy); complex C++ functions are only compiled.", "DESIGN.md §2 C05"),
+    "C06": ("exploration", "bounded program enumeration with parse-back of the emitted StableHLO / XLA-client text by independent parsers and node-by-node comparison with the graph under an independent operator table",
+            "All shipped stablehlo/xla_client requests (alt constant context for xla_client) and the declared kind lattice under real/complex/mixed symbols, with and without fa.rewrite: the text is parsed (S-expression reader; C tokenizer + Pratt parser), bindings are resolved in textual order (bound exactly once, before use), and the operator tree is compared with the graph: operator per kind, operand order, comparison direction, named-constant operators, ConstantLike/ScalarLike attached to a bound operand of the right element class, compile-time constant expressions of the alt context.",
+            "The kind->operator tables in mc/checks/c06.py are the authority for which operator implements a kind. Text only, nothing is executed.", "DESIGN.md §2 C06"),
     "C07": ("model_checking", "explicit-state BFS over construction histories of one Context, each state rebuilt on the real code, `is` vs structural-term equality in every state",
             "Level-synchronous breadth-first search over sequences of symbol/constant/operation constructions (two families enumerated completely up to 4-5 distinct terms), canonical states = set of structural terms + first-registered member of every ==-equal constant class (the only order-sensitive behaviour), so both orders of every colliding pair are visited; after every event the new node is compared with every earlier node: same object iff same structural term (value bits incl. sign of zero, type, like).",
             "Like-expressions are symbols; named constants under the documented spelling normalisation. Histories beyond the term bound are not covered.", "DESIGN.md §2 C07"),
